@@ -3,12 +3,18 @@ package h
 import (
 	"bytes"
 	"fmt"
+	"io"
 	"os"
 	"os/exec"
 	"path/filepath"
 	"strconv"
 	"strings"
 )
+
+type nopCloser struct{ w io.Writer }
+
+func (n nopCloser) Write(p []byte) (int, error) { return n.w.Write(p) }
+func (n nopCloser) Close() error                { return nil }
 
 // RebuildCut copies the drive cut at byte c, rebuilds an index from it with the real
 // recovery.Index (overwrite, real callbacks) under the watchdog and returns the result class,
@@ -115,6 +121,42 @@ func RebuildCut(dir string, e *Env, c int64, tag int) (string, []string, []strin
 		if (!ok || g != l) && !tornKeys(l) {
 			msgs = append(msgs, fmt.Sprintf("cut at byte %d: entry %q differs from the state after the last complete record", c, DecName(strings.Split(l, "\t")[1])))
 			break
+		}
+	}
+	if tornName != "" {
+		action := ""
+		if torn.Hdr.PAXRecords != nil {
+			action = torn.Hdr.PAXRecords["STFS.Action"]
+		}
+		// the torn entry itself: it may show the torn record's metadata, but it must not vanish
+		for _, l := range brows {
+			f := strings.Split(l, "\t")
+			if !tornKeys(l) || f[9] == "1" || action == "DELETE" {
+				continue
+			}
+			if torn.Hdr.PAXRecords["STFS.ReplacesName"] != "" {
+				continue
+			}
+			g, ok := got[key(l)]
+			if !ok || strings.Split(g, "\t")[9] == "1" {
+				msgs = append(msgs, fmt.Sprintf("cut at byte %d inside the record of %q: the entry vanished from the rebuilt index although an older complete version is on the tape", c, tornName))
+			}
+		}
+		// restoring the torn entry must report an error rather than return wrong data
+		if contentCut && e2 != nil {
+			var buf bytes.Buffer
+			var rerr error
+			s3 := NewSession(e2)
+			name := strings.TrimSuffix(tornName, filepath.Ext(""))
+			ok := s3.Guard(func() {
+				rerr = e2.ReadOps.Restore(func(string, os.FileMode) (io.WriteCloser, error) { return nopCloser{&buf}, nil },
+					func(string, os.FileMode) error { return nil }, name, "", true)
+			})
+			if !ok {
+				msgs = append(msgs, fmt.Sprintf("cut at byte %d: restoring the torn entry %q did not return", c, tornName))
+			} else if rerr == nil && int64(buf.Len()) != torn.Stored {
+				msgs = append(msgs, fmt.Sprintf("cut at byte %d: restoring the torn entry %q reported no error but returned %d of %d bytes", c, tornName, buf.Len(), torn.Stored))
+			}
 		}
 	}
 	for k, l := range got {
